@@ -3,7 +3,7 @@ From LV Require Import Base Toml FS LayerEnv LayerShared LayerEnvFS SpecDocs Lay
 From LV.Checks Require Import C01Hold C01Agree.
 From LVGen Require Import GenLayerShared.
 From LVGen Require GenLayerSharedImp.
-From LV Require LayerSboms LayerSbomsFacts LayerSharedFacts LayerSharedGone LayerSharedTotal WriteLayerFacts ReplaceMetaFacts RecreateFacts Determinism.
+From LV Require LayerSboms LayerSbomsFacts LayerSharedFacts LayerSharedGone LayerSharedTotal WriteLayerFacts ReplaceMetaFacts RecreateFacts WriteReadFacts Determinism.
 From LV Require FSInv FSFacts.
 From Coq Require Import String.
 Open Scope string_scope.
@@ -312,3 +312,77 @@ Proof.
   { intros sx m Hin H. cbn in Hin. repeat (destruct Hin as [<-|Hin]; [vm_compute in H; discriminate|]). contradiction. }
   vm_compute. repeat split; reflexivity.
 Qed.
+
+(* ---- what write_layer wrote, read_layer reads back (both as regenerated from the source).  A layer directory
+   with a regular readable content-metadata file: read_layer changes nothing and returns the layer's path with
+   the parsed document (an unparsable document is an error and still nothing changes). *)
+Theorem c01_read_layer_present :
+  forall (A : Type) (parse : bytes -> option A) layers n,
+    LV.FSFacts.valid_name n = true -> LV.FSFacts.valid_name (n ++ [46; 116; 111; 109; 108]) = true ->
+    forall s md m c,
+      LV.Determinism.simple_dir s layers -> pget (layers ++ [n]) s = Some (Dir md) ->
+      pget (layers ++ [n ++ [46; 116; 111; 109; 108]]) s = Some (File m c) -> has_r m = true ->
+      LVGen.GenLayerSharedImp.gen_read_layer parse layers n s =
+      (s, match parse (content_bytes c) with Some a => Ok (Some (layers ++ [n], a)) | None => Err EINVAL end).
+Proof. intros A parse layers n Vn Vt. exact (LV.WriteReadFacts.read_layer_present parse layers n Vn Vt). Qed.
+Print Assumptions c01_read_layer_present.
+
+Theorem c01_write_then_read_layer :
+  forall (T A : Type) (enc : T -> tv) (parse : bytes -> option A) layers n,
+    LV.FSFacts.valid_name n = true -> LV.FSFacts.valid_name (n ++ [46; 116; 111; 109; 108]) = true ->
+    forall s lcm,
+      LV.Determinism.simple_dir s layers -> pget (layers ++ [n]) s = None ->
+      pget (layers ++ [n ++ [46; 116; 111; 109; 108]]) s = None ->
+      exists s', LVGen.GenLayerSharedImp.gen_write_layer enc layers n lcm s = (s', Ok tt) /\
+        LVGen.GenLayerSharedImp.gen_read_layer parse layers n s' =
+        (s', match parse (content_bytes (Doc (enc lcm))) with Some a => Ok (Some (layers ++ [n], a)) | None => Err EINVAL end).
+Proof. intros T A enc parse layers n Vn Vt. exact (LV.WriteReadFacts.write_then_read_layer enc parse layers n Vn Vt). Qed.
+Print Assumptions c01_write_then_read_layer.
+
+(* recreating a layer and asking for it again, whatever the old layer held (hypotheses of c01_recreate_exact,
+   satisfied by c01_recreate_nonvacuous): the next read returns exactly the content metadata just written --
+   no metadata of an earlier build can come back -- and changes nothing *)
+Theorem c01_recreate_then_read :
+  forall (T A : Type) (enc : T -> tv) (parse : bytes -> option A) (lcm : T) layers n s,
+    LV.LayerSharedFacts.valid_path layers -> LV.FSFacts.valid_name n = true ->
+    LV.LayerSharedFacts.valid_fs s -> LV.LayerSharedGone.parent_closed s -> LV.LayerSharedTotal.layers_ok s layers ->
+    LV.Determinism.simple_dir s layers ->
+    (pget (layers ++ [n]) s = None \/ (exists m, pget (layers ++ [n]) s = Some (Dir m)) \/ (exists t, pget (layers ++ [n]) s = Some (Link t))) ->
+    (forall m, pget (layers ++ [toml_name n]) s <> Some (Dir m)) ->
+    (forall sx m, In sx (map LV.LayerSbomsFacts.sbom_suffix_of LVGen.GenLayerSharedImp.SBOM_FORMATS) -> pget (layers ++ [sbom_name n sx]) s <> Some (Dir m)) ->
+    exists s1 s2,
+      LVGen.GenLayerSharedImp.gen_delete_layer layers n s = (s1, Ok tt) /\
+      LVGen.GenLayerSharedImp.gen_write_layer enc layers n lcm s1 = (s2, Ok tt) /\
+      LVGen.GenLayerSharedImp.gen_read_layer parse layers n s2 =
+        (s2, match parse (content_bytes (Doc (enc lcm))) with Some a => Ok (Some (layers ++ [n], a)) | None => Err EINVAL end).
+Proof. intros T A enc parse lcm layers n s. exact (LV.WriteReadFacts.recreate_then_read enc parse lcm layers n s). Qed.
+Print Assumptions c01_recreate_then_read.
+
+(* keeping a restored layer, resp. replacing its metadata, and the next request's read: for ANY encoder / parser
+   pair that round-trips (the premise; for the real pair that is C07's subject) the read returns exactly the
+   requested types with the metadata the previous build left, resp. the declared types with the new metadata *)
+Theorem c01_keep_then_read :
+  forall (Ty Md : Type) (parse : bytes -> option (option Ty * Md)) (enc : option Ty * Md -> tv) layers n,
+    LV.FSFacts.valid_name n = true -> LV.FSFacts.valid_name (n ++ [46; 116; 111; 109; 108]) = true ->
+    (forall x, parse (content_bytes (Doc (enc x))) = Some x) ->
+    forall s md m c ty0 md0 ty,
+      LV.Determinism.simple_dir s layers -> pget (layers ++ [n]) s = Some (Dir md) ->
+      pget (layers ++ [n ++ [46; 116; 111; 109; 108]]) s = Some (File m c) ->
+      has_r m = true -> has_w m = true -> parse (content_bytes c) = Some (ty0, md0) ->
+      exists s', LVGen.GenLayerSharedImp.gen_replace_layer_types parse enc layers n ty s = (s', Ok tt) /\
+                 LVGen.GenLayerSharedImp.gen_read_layer parse layers n s' = (s', Ok (Some (layers ++ [n], (Some ty, md0)))).
+Proof. intros Ty Md parse enc layers n Vn Vt RT. exact (LV.WriteReadFacts.keep_then_read parse enc layers n Vn Vt RT). Qed.
+Print Assumptions c01_keep_then_read.
+
+Theorem c01_replace_metadata_then_read :
+  forall (Ty Md : Type) (parse : bytes -> option (option Ty * Md)) (enc : option Ty * Md -> tv) layers n,
+    LV.FSFacts.valid_name n = true -> LV.FSFacts.valid_name (n ++ [46; 116; 111; 109; 108]) = true ->
+    (forall x, parse (content_bytes (Doc (enc x))) = Some x) ->
+    forall s md m c ty0 md0 mdn,
+      LV.Determinism.simple_dir s layers -> pget (layers ++ [n]) s = Some (Dir md) ->
+      pget (layers ++ [n ++ [46; 116; 111; 109; 108]]) s = Some (File m c) ->
+      has_r m = true -> has_w m = true -> parse (content_bytes c) = Some (ty0, md0) ->
+      exists s', LVGen.GenLayerSharedImp.gen_replace_layer_metadata parse enc layers n mdn s = (s', Ok tt) /\
+                 LVGen.GenLayerSharedImp.gen_read_layer parse layers n s' = (s', Ok (Some (layers ++ [n], (ty0, mdn)))).
+Proof. intros Ty Md parse enc layers n Vn Vt RT. exact (LV.WriteReadFacts.replace_metadata_then_read parse enc layers n Vn Vt RT). Qed.
+Print Assumptions c01_replace_metadata_then_read.
